@@ -772,6 +772,20 @@ def inline_with_at(prog):
     return any(f["kind"] == "inline" and pat_has_at(f["params"]) for f in prog["funs"])
 
 
+def zero_literal_condition(prog):
+    """an if whose condition is (or, through an inline function's parameter, receives) a zero-valued non-empty literal atom"""
+    def zero_lit(e):
+        return e[0] == "hex" and len(e[1]) >= 1 and not any(e[1])
+    inl = {f["name"] for f in prog["funs"] if f["kind"] == "inline"}
+    for where in [prog["body"]] + [f["body"] for f in prog["funs"]]:
+        for _, s in subexprs(where):
+            if s[0] == "if" and zero_lit(s[1]):
+                return True
+            if s[0] == "call" and s[1] in inl and any(zero_lit(a) for a in s[2]):
+                return True
+    return False
+
+
 def known_class(prog, dialect, opt):
     """id of the open known-finding class a (program, dialect, optimise) build falls into, or None"""
     if dialect == "strict21" and opt:
@@ -780,6 +794,8 @@ def known_class(prog, dialect, opt):
         return "D18-cl22-identifier-leak"
     if dialect != "classic" and (at_with_let(prog) or inline_with_at(prog)):
         return "D19-at-capture-with-let"
+    if dialect in ("cl23", "strict21") and zero_literal_condition(prog):
+        return "D32-cl23-zero-literal-condition"
     if dialect in ("cl23", "cl23.1", "cl24") and closed_body_with_quote_nil(prog):
         return "D20-quoted-constant-nulled"
     return None
